@@ -68,7 +68,7 @@ def run_shard(args):
     except Exception:  # harness failure: inconclusive, never a violation
         ctx.rec.inconclusive_because(
             'harness exception in shard {}: {}'.format(
-                args.shard, traceback.format_exc()[-1500:]
+                args.shard, traceback.format_exc()[-3500:]
             )
         )
     finally:
